@@ -203,6 +203,8 @@ pub struct Repo {
     pub dates: Vec<i64>,
     tag_objects: HashMap<(String, usize), String>,
     current_tags: Vec<Tag>,
+    /// SHA-256 object format (64-digit object names)
+    pub sha256: bool,
 }
 
 pub fn scratch_root() -> PathBuf {
@@ -212,11 +214,14 @@ pub fn scratch_root() -> PathBuf {
 
 impl Repo {
     /// Materialise the DAG and branches of `shape` with the given committer dates.
-    pub fn create(root: &Path, id: &str, shape: &Shape, dates: &[i64]) -> Repo {
+    pub fn create(root: &Path, id: &str, shape: &Shape, dates: &[i64]) -> Repo { Repo::create_fmt(root, id, shape, dates, false) }
+
+    /// ... in the SHA-1 or the SHA-256 object format (64-digit object names; `git init --object-format=sha256`)
+    pub fn create_fmt(root: &Path, id: &str, shape: &Shape, dates: &[i64], sha256: bool) -> Repo {
         let dir = root.join(id);
         let _ = std::fs::remove_dir_all(&dir);
         std::fs::create_dir_all(&dir).unwrap_or_else(|e| machinery_error(&format!("mkdir {dir:?}: {e}")));
-        git(&dir, &["init", "-q", "-b", "zzinit"], None);
+        if sha256 { git(&dir, &["init", "-q", "-b", "zzinit", "--object-format=sha256"], None); } else { git(&dir, &["init", "-q", "-b", "zzinit"], None); }
         std::fs::write(dir.join(".git/info/exclude"), "*.locallyignored\n").unwrap_or_else(|e| machinery_error(&format!("info/exclude: {e}")));
         let mut s = String::new();
         for (i, ps) in shape.parents.iter().enumerate() {
@@ -232,7 +237,7 @@ impl Repo {
             if i % 3 != 2 { s += &format!("M 100644 inline f{}\ndata {}\n{}\n", i % 64, msg.len(), msg); }
             // the root commit also records a gitlink (a submodule pointer) `lib` to NESTED_COMMIT (see nested_repo); the directory stays an uninitialised, empty
             // submodule unless a work-tree state puts a nested repository there
-            if i == 0 { s += "M 100644 inline .gitignore\ndata 8\nignored*\nM 160000 780dd3ca1074701ebb3912bf6fa3dfca1eaf79d7 lib\n"; }
+            if i == 0 { s += "M 100644 inline .gitignore\ndata 8\nignored*\n"; s += if sha256 { "M 160000 780dd3ca1074701ebb3912bf6fa3dfca1eaf79d7780dd3ca1074701ebb3912bf lib\n" } else { "M 160000 780dd3ca1074701ebb3912bf6fa3dfca1eaf79d7 lib\n" }; }
             s += "\n";
         }
         for (b, c) in &shape.branches { s += &format!("reset refs/heads/{b}\nfrom :{}\n\n", c + 1); }
@@ -244,7 +249,7 @@ impl Repo {
         }
         if shas.iter().any(|s| s.is_empty()) { machinery_error("fast-import marks incomplete"); }
         git(&dir, &["update-ref", "-d", "refs/heads/zztmp"], None);
-        let r = Repo { dir, shas, dates: dates.to_vec(), tag_objects: HashMap::new(), current_tags: vec![] };
+        let r = Repo { dir, shas, dates: dates.to_vec(), tag_objects: HashMap::new(), current_tags: vec![], sha256 };
         r.conform_dag(shape);
         r
     }
